@@ -177,6 +177,21 @@ main(int argc, char** argv)
         if (ba.last != old_last || ba.top != old_top) printf(" SPEC-FAIL:changed-on-failure");
       }
       state();
+    } else if (!strcmp(tok[0], "reallocdead") && n == 2) {
+      // realloc of the address at offset `last` while no live block is there (the last block was freed, or nothing has been
+      // allocated yet): there is no block to resize, so it must be refused and change nothing
+      bool live_there = false;
+      for (int i = 0; i < n_blks; ++i) if (blks[i].live && blks[i].ptr == buffer + ba.last) live_there = true;
+      if (live_there) { puts("bad-op"); continue; }
+      const size_t size = strtoull(tok[1], NULL, 10);
+      char* p = (char*)zix_realloc(&ba.base, buffer + ba.last, size);
+      if (p) {
+        printf("off=%td SPEC-FAIL:realloc-of-a-freed-block-succeeded", p - buffer);
+      } else {
+        printf("off=NULL");
+        if (ba.last != old_last || ba.top != old_top) printf(" SPEC-FAIL:changed-on-failure");
+      }
+      state();
     } else if (!strcmp(tok[0], "free") && n == 2) {
       if (!strcmp(tok[1], "0")) {
         zix_free(&ba.base, NULL);
